@@ -85,6 +85,30 @@ pub fn part_trees(args: &Args, pipelines: &[&'static str], alpha: bool) -> Part 
     Part { name: if alpha { "trees-alpha" } else { "trees" }, out, bounds }
 }
 
+/// exhaustive unparenthesised chains over the 3-operator family (longer) and the 4-operator family
+pub fn part_chains_exh(args: &Args, pipelines: &[&'static str], four: bool) -> Part {
+    let quick = args.tier_quick();
+    let seed = args.seed();
+    let (tables, max_leaves, stride_last, bins): (Vec<Table>, usize, usize, Vec<u16>) = if four {
+        (families::generic_tables4(if quick { 3 } else { 1 }, seed as usize, false), if quick { 5 } else { 6 }, if quick { 1 } else { 4 }, vec![families::X, families::Y, families::Z, families::W])
+    } else {
+        (families::generic_tables(quick, false), if quick { 6 } else { 7 }, if quick { 2 } else { 2 }, vec![families::X, families::Y, families::Z])
+    };
+    let bins2 = bins.clone();
+    let gen = move |ti: usize, _t: &Table| -> Vec<Program> { families::chain_programs(max_leaves, &bins2, stride_last, seed.wrapping_add(ti as u64)) };
+    let sc = mk_sweep(args, tables, &gen, pipelines.to_vec(), 64);
+    let ntab = sc.tables.len();
+    let out = sweep::sweep(&sc);
+    let bounds = json!({
+        "tables": ntab,
+        "table_family": if four { "4 binary-capable operators (&, %, -, |) x all 75 weak orders of priorities x all 16 flag subsets (quick: every 3rd table, offset VERIF_SEED), magnitude maps rotating" } else { "the 3-operator family" },
+        "chains": format!("every unparenthesised chain with 2..={max_leaves} operands: every operator tuple x every variable/literal pattern (longest length: every {stride_last}th); plus every 5th chain inside a unary group `sin(chain) op w` / `w op -(chain)`, every 7th with a unary chain on one leaf"),
+        "reference": "precedence climbing: descending priority, left-to-right among equals (the documented rule)",
+        "pipelines": pipelines,
+    });
+    Part { name: if four { "chains-4op" } else { "chains-3op" }, out, bounds }
+}
+
 /// long unparenthesised chains (tracker hand-over at 64 operands; application orders)
 pub fn part_chains(args: &Args, pipelines: &[&'static str]) -> Part {
     let quick = args.tier_quick();
@@ -198,7 +222,7 @@ pub fn dispatch(args: &Args) -> i32 {
         }
         "C01" => {
             let pls = ["flat", "flat_wo"];
-            let mut parts = vec![part_trees(args, &pls, false), part_trees(args, &pls, true), part_chains(args, &pls), part_random(args, &pls)];
+            let mut parts = vec![part_trees(args, &pls, false), part_trees(args, &pls, true), part_chains_exh(args, &pls, false), part_chains_exh(args, &pls, true), part_chains(args, &pls), part_random(args, &pls)];
             if !args.tier_quick() {
                 parts.push(crate::extra::part_default_table(args, &pls));
             }
@@ -212,7 +236,7 @@ pub fn dispatch(args: &Args) -> i32 {
         }
         "C02" => {
             let pls = ["flat", "flat_wo", "flat_recompile", "flat_wo_compile2", "deep"];
-            let mut parts = vec![part_trees(args, &pls, false), part_chains(args, &["flat", "flat_wo", "deep"]), part_random(args, &pls)];
+            let mut parts = vec![part_trees(args, &pls, false), part_chains_exh(args, &pls, false), part_chains_exh(args, &pls, true), part_chains(args, &["flat", "flat_wo", "deep"]), part_random(args, &pls)];
             parts.push(crate::extra::part_raw_differential(args, "C02"));
             finish(args, "C02", parts, vec![], json!({
                 "functions": ([FUNCS_PARSE, FUNCS_DEEP].concat()),
@@ -223,7 +247,8 @@ pub fn dispatch(args: &Args) -> i32 {
         }
         "C03" => {
             let pls = ["flat", "deep", "flat>deep", "flat>deep>flat", "deep>flat", "deep>flat>deep", "flat>deep>flat>deep", "deep>flat>deep>flat", "flat_wo>deep", "flat_wo>deep>flat", "deep_relaxed"];
-            let mut parts = vec![part_trees(args, &pls, false), part_trees(args, &["flat", "deep", "flat>deep>flat", "deep>flat"], true), part_chains(args, &["flat>deep", "deep>flat", "flat>deep>flat"]), part_random(args, &pls)];
+            let mut parts = vec![part_trees(args, &pls, false), part_trees(args, &["flat", "deep", "flat>deep>flat", "deep>flat"], true), part_chains(args, &["flat>deep", "deep>flat", "flat>deep>flat"]), part_random(args, &pls),
+                part_chains_exh(args, &["flat", "deep", "flat>deep", "deep>flat", "flat>deep>flat"], false), part_chains_exh(args, &["flat", "deep", "flat>deep", "deep>flat"], true)];
             parts.push(crate::extra::part_raw_differential(args, "C03"));
             let listing = crate::extra::listings_check(args);
             finish(args, "C03", parts, listing.0, json!({
@@ -235,7 +260,7 @@ pub fn dispatch(args: &Args) -> i32 {
         }
         "C08" => {
             let pls = ["flat", "flat_wo", "deep"];
-            let parts = vec![part_trees(args, &pls, true), crate::extra::part_call_nesting(args, &pls)];
+            let parts = vec![part_trees(args, &pls, true), crate::extra::part_call_nesting(args, &pls), crate::extra::part_call_in_infix(args, &pls)];
             finish(args, "C08", parts, vec![], json!({
                 "functions": ["parser::tokenize_and_analyze (comma rewrite)", "parser::find_op_of_comma", "flat::detail::make_expression", "deep::detail::make_expression"],
                 "assumptions": ["parametricity in T"],
@@ -244,7 +269,7 @@ pub fn dispatch(args: &Args) -> i32 {
         }
         "C12" => {
             let pls = ["reparse_deep", "reparse_flat_from_deep"];
-            let mut parts = vec![part_trees(args, &pls, false), part_trees(args, &pls, true), part_random(args, &pls)];
+            let mut parts = vec![part_trees(args, &pls, false), part_trees(args, &pls, true), part_random(args, &pls), part_chains_exh(args, &pls, false)];
             parts.push(crate::extra::part_unparse_identity(args));
             parts.push(crate::extra::part_serde(args));
             finish(args, "C12", parts, vec![], json!({
@@ -255,7 +280,7 @@ pub fn dispatch(args: &Args) -> i32 {
         }
         "C15" => {
             let pls = ["flat_vec", "flat_iter", "flat_wo_vec", "flat_wo_iter"];
-            let mut parts = vec![part_trees(args, &pls, false), part_random(args, &pls), part_chains(args, &["flat_vec", "flat_wo_iter"])];
+            let mut parts = vec![part_trees(args, &pls, false), part_random(args, &pls), part_chains(args, &["flat_vec", "flat_wo_iter"]), part_chains_exh(args, &["flat_vec", "flat_wo_iter"], false)];
             parts.push(crate::extra::part_clone_counts(args));
             finish(args, "C15", parts, vec![], json!({
                 "functions": ["flat::detail::eval_flatex_consuming_vars", "FlatEx::eval_vec", "FlatEx::eval_iter", "flat::detail::eval_numbers"],
